@@ -7,7 +7,7 @@
     are extracted only because ocaml/common.ml (shared glue) refers to them. *)
 From Coq Require Extraction ExtrOcamlBasic.
 From Coq Require Import Arith ZArith List Ascii.
-From CanVerif Require Import Runner.Lts Runner.RunModel Runner.LockDiscipline Runner.Protocol Runner.RunLts.
+From CanVerif Require Import Runner.Lts Runner.RunModel Runner.LockDiscipline Runner.Protocol Runner.RunLts Runner.Program.
 Extraction Language OCaml.
 Extraction "model.ml"
   step_fn init cfg_of_list run accepts first_reject
@@ -19,5 +19,6 @@ Extraction "model.ml"
   qstep qinit qrun q_clean q_is_returned q_is_connected q_is_running
   shape_accepts rframe_of_shape ticker_eligible role_of_descriptor
   kstep kinit krun kfirst_reject
+  ref_progs lookup_prog first_diff prog_lock_ok first_lock_violation gen_prog_passive gen_node_passive
   Nat.eqb Nat.add
   Z.add Z.mul Z.sub Z.ltb Z.leb Z.eqb Z.of_nat Z.to_nat Z.pow Z.modulo Z.div.
